@@ -1,0 +1,308 @@
+//go:build verif
+// +build verif
+
+// Scenario driver for external runtime monitors (build tag "verif"; not part of normal builds or
+// test runs). It contains no oracle: it starts the real worker goroutines on the real package
+// channels and buffer pools, feeds the datagrams of a scenario exactly as run() does, joins the
+// workers at barriers (closing the UDP channel, as shutdown() does) and writes what the workers
+// put on the message-queue channel to an event log.
+package main
+
+import (
+	"bufio"
+	"encoding/hex"
+	"encoding/json"
+	"io"
+	"log"
+	"net"
+	"os"
+	"runtime"
+	"sync"
+	"sync/atomic"
+	"testing"
+	"time"
+
+	"github.com/EdgeCast/vflow/ipfix"
+	netflow9 "github.com/EdgeCast/vflow/netflow/v9"
+)
+
+type verifStep struct {
+	Op    string `json:"op"` // feed | barrier | quit_worker | add_worker | stats
+	Addr  string `json:"addr,omitempty"`
+	Port  int    `json:"port,omitempty"`
+	Dgram string `json:"dgram,omitempty"`
+	ID    int    `json:"id,omitempty"`
+	N     int    `json:"n,omitempty"`
+}
+
+type verifScenario struct {
+	Proto       string      `json:"proto"`
+	UDPSize     int         `json:"udp_size"`
+	Workers     int         `json:"workers"`
+	GoMaxProcs  int         `json:"gomaxprocs"`
+	CacheFile   string      `json:"cache_file"`
+	ElementsDir string      `json:"elements_dir"`
+	MirrorAddr  string      `json:"mirror_addr"`
+	MirrorPort  int         `json:"mirror_port"`
+	MirrorWait  string      `json:"mirror_wait_file"` // the driver stays alive until this file exists (or 15 s)
+	TypeFilter  []uint32    `json:"type_filter"`
+	Verbose     bool        `json:"verbose"`
+	Steps       []verifStep `json:"steps"`
+}
+
+type verifEvent struct {
+	Ev      string      `json:"ev"`
+	ID      int         `json:"id,omitempty"`
+	Phase   int         `json:"phase"`
+	B       string      `json:"b,omitempty"`
+	Stats   interface{} `json:"stats,omitempty"`
+	Reused  int         `json:"reused,omitempty"`
+	Fresh   int         `json:"fresh,omitempty"`
+	Workers int         `json:"workers,omitempty"`
+	Note    string      `json:"note,omitempty"`
+}
+
+// verifPipe adapts the four protocol pipelines to one shape.
+type verifPipe struct {
+	remake   func()                // re-make the package-level channels
+	start    func(q chan struct{}) // run one real worker until its quit channel or the UDP channel closes
+	feed     func(raddr *net.UDPAddr, d []byte) (reused bool)
+	closeUDP func()
+	drainMQ  func() [][]byte
+	stats    func() interface{}
+}
+
+func TestVerifDriver(t *testing.T) {
+	path := os.Getenv("VERIF_SCENARIO")
+	if path == "" {
+		t.Skip("VERIF_SCENARIO not set")
+	}
+	raw, err := os.ReadFile(path)
+	if err != nil {
+		t.Fatal(err)
+	}
+	var sc verifScenario
+	if err := json.Unmarshal(raw, &sc); err != nil {
+		t.Fatal(err)
+	}
+	evF, err := os.Create(os.Getenv("VERIF_EVENTS"))
+	if err != nil {
+		t.Fatal(err)
+	}
+	evW := bufio.NewWriter(evF)
+	enc := json.NewEncoder(evW)
+	emit := func(e verifEvent) { enc.Encode(e) }
+	defer func() { evW.Flush(); evF.Close() }()
+
+	if sc.GoMaxProcs > 0 {
+		runtime.GOMAXPROCS(sc.GoMaxProcs)
+	}
+	opts = NewOptions()
+	opts.Logger = log.New(io.Discard, "", 0)
+	if lf := os.Getenv("VERIF_LOG"); lf != "" {
+		if f, err := os.Create(lf); err == nil {
+			opts.Logger = log.New(f, "[vflow] ", log.Ldate|log.Ltime)
+		}
+	}
+	logger = opts.Logger
+	opts.Verbose = sc.Verbose
+	opts.DynWorkers = false
+	if sc.UDPSize > 0 {
+		opts.IPFIXUDPSize, opts.SFlowUDPSize, opts.NetflowV5UDPSize, opts.NetflowV9UDPSize = sc.UDPSize, sc.UDPSize, sc.UDPSize, sc.UDPSize
+	}
+	opts.SFlowTypeFilter = sc.TypeFilter
+	opts.IPFIXMirrorAddr, opts.IPFIXMirrorPort = sc.MirrorAddr, sc.MirrorPort
+	opts.SFlowMirrorAddr, opts.SFlowMirrorPort = sc.MirrorAddr, sc.MirrorPort
+	opts.IPFIXMirrorWorkers, opts.SFlowMirrorWorkers = 2, 2
+	if sc.ElementsDir != "" {
+		if err := ipfix.LoadExtElements(sc.ElementsDir); err != nil {
+			t.Fatal(err)
+		}
+	}
+	mCache = ipfix.GetCache(sc.CacheFile)
+	mCacheNF9 = netflow9.GetCache(sc.CacheFile)
+
+	seen := map[*byte]bool{}
+	track := func(b []byte) bool {
+		if cap(b) == 0 {
+			return false
+		}
+		p := &b[:1][0]
+		r := seen[p]
+		seen[p] = true
+		return r
+	}
+	var pipe verifPipe
+	switch sc.Proto {
+	case "ipfix":
+		i := NewIPFIX()
+		pipe = verifPipe{
+			remake: func() { ipfixUDPCh = make(chan IPFIXUDPMsg, 1000) },
+			start:  func(q chan struct{}) { i.ipfixWorker(q) },
+			feed: func(raddr *net.UDPAddr, d []byte) bool {
+				b := ipfixBuffer.Get().([]byte)
+				r := track(b)
+				n := copy(b, d)
+				atomic.AddUint64(&i.stats.UDPCount, 1)
+				ipfixUDPCh <- IPFIXUDPMsg{raddr, b[:n]}
+				return r
+			},
+			closeUDP: func() { close(ipfixUDPCh) },
+			drainMQ: func() (out [][]byte) {
+				for len(ipfixMQCh) > 0 {
+					out = append(out, <-ipfixMQCh)
+				}
+				return
+			},
+			stats: func() interface{} { return i.status() },
+		}
+		if sc.MirrorAddr != "" {
+			go mirrorIPFIXDispatcher(ipfixMCh)
+		}
+	case "nf9":
+		i := NewNetflowV9()
+		pipe = verifPipe{
+			remake: func() { netflowV9UDPCh = make(chan NetflowV9UDPMsg, 1000) },
+			start:  func(q chan struct{}) { i.netflowV9Worker(q) },
+			feed: func(raddr *net.UDPAddr, d []byte) bool {
+				b := netflowV9Buffer.Get().([]byte)
+				r := track(b)
+				n := copy(b, d)
+				atomic.AddUint64(&i.stats.UDPCount, 1)
+				netflowV9UDPCh <- NetflowV9UDPMsg{raddr, b[:n]}
+				return r
+			},
+			closeUDP: func() { close(netflowV9UDPCh) },
+			drainMQ: func() (out [][]byte) {
+				for len(netflowV9MQCh) > 0 {
+					out = append(out, <-netflowV9MQCh)
+				}
+				return
+			},
+			stats: func() interface{} { return i.status() },
+		}
+	case "nf5":
+		i := NewNetflowV5()
+		pipe = verifPipe{
+			remake: func() { netflowV5UDPCh = make(chan NetflowV5UDPMsg, 1000) },
+			start:  func(q chan struct{}) { i.netflowV5Worker(q) },
+			feed: func(raddr *net.UDPAddr, d []byte) bool {
+				b := netflowV5Buffer.Get().([]byte)
+				r := track(b)
+				n := copy(b, d)
+				atomic.AddUint64(&i.stats.UDPCount, 1)
+				netflowV5UDPCh <- NetflowV5UDPMsg{raddr, b[:n]}
+				return r
+			},
+			closeUDP: func() { close(netflowV5UDPCh) },
+			drainMQ: func() (out [][]byte) {
+				for len(netflowV5MQCh) > 0 {
+					out = append(out, <-netflowV5MQCh)
+				}
+				return
+			},
+			stats: func() interface{} { return i.status() },
+		}
+	case "sflow":
+		s := NewSFlow()
+		pipe = verifPipe{
+			remake: func() { sFlowUDPCh = make(chan SFUDPMsg, 1000) },
+			start:  func(q chan struct{}) { s.sFlowWorker(q) },
+			feed: func(raddr *net.UDPAddr, d []byte) bool {
+				b := sFlowBuffer.Get().([]byte)
+				r := track(b)
+				n := copy(b, d)
+				atomic.AddUint64(&s.stats.UDPCount, 1)
+				sFlowUDPCh <- SFUDPMsg{raddr, b[:n]}
+				return r
+			},
+			closeUDP: func() { close(sFlowUDPCh) },
+			drainMQ: func() (out [][]byte) {
+				for len(sFlowMQCh) > 0 {
+					out = append(out, <-sFlowMQCh)
+				}
+				return
+			},
+			stats: func() interface{} { return s.status() },
+		}
+		if sc.MirrorAddr != "" {
+			go mirrorSFlowDispatcher(sFlowMCh)
+		}
+	default:
+		t.Fatal("unknown proto " + sc.Proto)
+	}
+	if sc.MirrorAddr != "" {
+		// the dispatcher opens the raw sockets and flips the enabled flag on its own goroutine
+		time.Sleep(300 * time.Millisecond)
+	}
+
+	var wg sync.WaitGroup
+	var quits []chan struct{}
+	startWorkers := func(n int) {
+		for k := 0; k < n; k++ {
+			q := make(chan struct{})
+			quits = append(quits, q)
+			wg.Add(1)
+			go func() {
+				defer wg.Done()
+				pipe.start(q)
+			}()
+		}
+	}
+	phase := 0
+	reused, fresh, live := 0, 0, sc.Workers
+	pipe.remake()
+	startWorkers(sc.Workers)
+	join := func() {
+		pipe.closeUDP() // what shutdown() does; the workers leave their loops
+		wg.Wait()
+		quits = nil
+		for _, b := range pipe.drainMQ() { // drained only after the workers joined
+			emit(verifEvent{Ev: "published", Phase: phase, B: hex.EncodeToString(b)})
+		}
+		emit(verifEvent{Ev: "stats", Phase: phase, Stats: pipe.stats(), Reused: reused, Fresh: fresh, Workers: live})
+	}
+	for _, st := range sc.Steps {
+		switch st.Op {
+		case "feed":
+			addr, _ := hex.DecodeString(st.Addr)
+			d, _ := hex.DecodeString(st.Dgram)
+			ip := make(net.IP, len(addr))
+			copy(ip, addr)
+			if pipe.feed(&net.UDPAddr{IP: ip, Port: st.Port}, d) {
+				reused++
+			} else {
+				fresh++
+			}
+			emit(verifEvent{Ev: "fed", ID: st.ID, Phase: phase})
+		case "barrier":
+			join()
+			phase++
+			pipe.remake()
+			startWorkers(live)
+		case "quit_worker":
+			// what dynWorkers does when the load falls: close one worker's quit channel
+			for k := 0; k < st.N && len(quits) > 1; k++ {
+				close(quits[0])
+				quits = quits[1:]
+				live--
+			}
+		case "add_worker":
+			startWorkers(st.N)
+			live += st.N
+		case "stats":
+			emit(verifEvent{Ev: "stats", Phase: phase, Stats: pipe.stats(), Note: "mid-stream"})
+		}
+	}
+	join()
+	emit(verifEvent{Ev: "end", Phase: phase})
+	evW.Flush()
+	if sc.MirrorWait != "" {
+		for k := 0; k < 1500; k++ {
+			if _, err := os.Stat(sc.MirrorWait); err == nil {
+				break
+			}
+			time.Sleep(10 * time.Millisecond)
+		}
+	}
+}
